@@ -239,6 +239,33 @@ fn job_share_all(j: &J) -> J {
     }
 }
 
+/// Native run of the private pagination helper on rows [0, 1, .., len-1] (engine M replay / translator validation).
+fn job_paginate(j: &J) -> J {
+    use inputlayer::protocol::handler::verif_apply_pagination;
+    use inputlayer::protocol::wire::{WireTuple, WireValue};
+    let len = j["len"].as_u64().unwrap_or(0) as usize;
+    if len > 100_000 {
+        return json!({"ok": false, "error": "len too large for native replay"});
+    }
+    let rows: Vec<WireTuple> = (0..len).map(|i| WireTuple::new(vec![WireValue::Int64(i as i64)])).collect();
+    let limit = j["limit"].as_u64().map(|x| x as usize);
+    let offset = j["offset"].as_u64().map(|x| x as usize);
+    let out = std::panic::catch_unwind(|| verif_apply_pagination(rows, limit, offset));
+    match out {
+        Ok(v) => {
+            let idx: Vec<i64> = v
+                .iter()
+                .map(|t| match t.values.first() {
+                    Some(WireValue::Int64(i)) => *i,
+                    _ => -1,
+                })
+                .collect();
+            json!({"ok": true, "rows": idx})
+        }
+        Err(_) => json!({"ok": true, "panic": true}),
+    }
+}
+
 fn job_exec_ir(j: &J) -> J {
     let ir = match ir_from_json(&j["ir"]) {
         Ok(i) => i,
@@ -282,6 +309,7 @@ fn main() {
                         "rewrite" => job_rewrite(&j),
                         "exec_ir" => job_exec_ir(&j),
                         "share_all" => job_share_all(&j),
+                        "paginate" => job_paginate(&j),
                         "contains_join" => match ir_from_json(&j["ir"]) {
                             Ok(i) => json!({"ok": true, "contains_join": CodeGenerator::verif_contains_join(&i)}),
                             Err(e) => json!({"ok": false, "error": e}),
